@@ -182,7 +182,7 @@ Record oret := mkORet {
 Inductive observed := OErr (e : errk) | OOk (rets : list oret) (final : list (list Q)).
 
 Record ucase := mkCase {
-  k_uf : ufid; k_nout : nat; k_rdt : list dt; k_oracle : res (list narrQ);
+  k_var : variant; k_uf : ufid; k_nout : nat; k_rdt : list dt; k_oracle : res (list narrQ);
   k_store : list narrQ;
   k_self : operandQ; k_meth : meth; k_ins : list operandQ; k_kw : kwargs;
   k_outs : list (option operandQ);
@@ -273,8 +273,8 @@ Definition opt_buf (o : option operandQ) : option nat :=
 Definition run_odl (k : ucase) : res (list operandQ * @store Q) :=
   let NP := np_conc (k_uf k) (k_rdt k) (k_oracle k) in
   match k_self k with
-  | OpTens sp _ => tens_ufunc castQ NP (k_store k) sp (k_nout k) (k_meth k) (k_ins k) (k_kw k) (k_outs k)
-  | OpDisc ds _ => disc_ufunc castQ NP (k_store k) ds (k_nout k) (k_meth k) (k_ins k) (k_kw k) (k_outs k)
+  | OpTens sp _ => tens_ufunc castQ (k_var k) NP (k_store k) sp (k_nout k) (k_meth k) (k_ins k) (k_kw k) (k_outs k)
+  | OpDisc ds _ => disc_ufunc castQ (k_var k) NP (k_store k) ds (k_nout k) (k_meth k) (k_ins k) (k_kw k) (k_outs k)
   | _ => Err EUnmodelled
   end.
 Definition run_raw (k : ucase) : res (list operandQ * @store Q) :=
